@@ -51,13 +51,116 @@ def diff_set(A, rows):
     return d
 
 
+# ---------------------------------------------------------------------------------------------------------------
+# UPDATE through the dataframe and sqlite front-ends: the assigned field holds the right-hand side value, whatever type the column had before
+
+def leg_typed_update(ns, res, spec):
+    import sqlite3
+    import tempfile
+    import shutil
+    import os
+    import pandas as pd
+    from ..model import refcsv
+    rng = random.Random(spec['seed'] * 67867979 + spec['i'])
+    d = tempfile.mkdtemp(prefix='rv-c05-')
+    try:
+        for n in range(spec['n']):
+            nrows = rng.randrange(1, 6)
+            qty = [rng.choice([1, 2, 3, 5, 8, 127, 200]) for _ in range(nrows)]
+            price = [rng.choice([0.5, 1.0, 2.25, 10.0]) for _ in range(nrows)]
+            flag = [rng.choice([True, False]) for _ in range(nrows)]
+            name = [rng.choice(['a', 'b', 'cd']) for _ in range(nrows)]
+            rows = [[qty[i], price[i], flag[i], name[i]] for i in range(nrows)]
+            updates = [('update a.qty = a.qty / 2', lambda r, nu: [r[0] / 2, r[1], r[2], r[3]]),
+                       ('update a.qty = a.price, a.price = a.qty', lambda r, nu: [r[1], r[0], r[2], r[3]]),
+                       ('update a1 = NU * 1.5', lambda r, nu: [nu * 1.5, r[1], r[2], r[3]]),
+                       ('update a.flag = 2', lambda r, nu: [r[0], r[1], 2, r[3]]),
+                       ('update a.qty = a.qty * 1000000007', lambda r, nu: [r[0] * 1000000007, r[1], r[2], r[3]]),
+                       ('update a.qty = a.name', lambda r, nu: [r[3], r[1], r[2], r[3]]),
+                       ('update a2 = a2 * 2 where a1 > 2', lambda r, nu: [r[0], r[1] * 2, r[2], r[3]] if r[0] > 2 else list(r)),
+                       ('update a.price = a.qty where a.flag', lambda r, nu: [r[0], r[0], r[2], r[3]] if r[2] else list(r)),
+                       ('update a.qty = None where a.qty > 2', lambda r, nu: [None, r[1], r[2], r[3]] if r[0] > 2 else list(r)),
+                       ('update a.name = a.qty', lambda r, nu: [r[0], r[1], r[2], r[0]])]
+            qtext, f = updates[n % len(updates)]
+            exp, nu = [], 0
+            for r in rows:
+                changed = f(r, nu + 1)
+                if changed != list(r) or ' where ' not in qtext:
+                    nu += 1
+                    changed = f(r, nu)
+                exp.append(changed)
+
+            def same(g, e):
+                if e is None:
+                    return g is None or g != g
+                if isinstance(e, str) or isinstance(g, str):
+                    return g == e
+                if isinstance(e, bool):
+                    return g == e
+                try:
+                    return float(g) == float(e) and (not isinstance(e, int) or int(g) == e)
+                except (TypeError, ValueError):
+                    return False
+            # pandas
+            small = rng.random() < 0.3
+            df = pd.DataFrame({'qty': pd.Series(qty, dtype='int8' if small and max(qty) < 128 else 'int64'), 'price': pd.Series(price, dtype='float32' if small else 'float64'), 'flag': pd.Series(flag, dtype='bool'), 'name': pd.Series(name, dtype='object')})
+            err = got = None
+            try:
+                out = ns.rbql.query_pandas_dataframe(qtext, df, [])
+                got = [[(v.item() if hasattr(v, 'item') else v) for v in r] for r in out.values.tolist()]
+            except Exception as e:
+                err = '%s: %s' % (type(e).__name__, str(e)[:150])
+            res.evaluations += 1
+            res.count('typed_update_runs:pandas')
+            res.nontrivial('typed-update', qtext, repr(rows))
+            cs = {'leg': 'typed-update', 'front_end': 'pandas', 'query_text': qtext, 'rows': [[repr(v) for v in r] for r in rows]}
+            if err is not None or len(got) != len(exp) or any(len(g) != len(e) or not all(same(x, y) for x, y in zip(g, e)) for g, e in zip(got, exp)):
+                res.violation('py:typed-update-assigned-value-lost:pandas', '[py/pandas] %s over %r (dtypes %s) -> %s ; expected %r' % (qtext, rows, [str(t) for t in df.dtypes], err or got, exp), cs)
+            # sqlite -> CSV
+            conn = sqlite3.connect(':memory:')
+            conn.execute('CREATE TABLE t (qty INTEGER, price REAL, flag INTEGER, name TEXT)')
+            conn.executemany('INSERT INTO t VALUES (?, ?, ?, ?)', [[r[0], r[1], int(r[2]), r[3]] for r in rows])
+            conn.commit()
+            outp = os.path.join(d, 'o.csv')
+            err = None
+            try:
+                ns.sqlite.query_sqlite_to_csv(qtext, conn, 't', outp, ',', 'quoted_rfc', 'utf-8', [])
+                with open(outp, encoding='utf-8', newline='') as fh:
+                    got = refcsv.read_text(fh.read(), ',', 'quoted_rfc', 'utf-8', True).records
+            except Exception as e:
+                err = '%s: %s' % (type(e).__name__, str(e)[:150])
+            conn.close()
+            res.evaluations += 1
+            res.count('typed_update_runs:sqlite')
+            exp_txt = [['' if v is None else str(int(v) if isinstance(v, bool) else v) for v in e] for e in exp]
+            if qtext == 'update a.flag = 2' or True:
+                # sqlite delivers the flag column as 0 / 1
+                exp2, nu = [], 0
+                for r in rows:
+                    r2 = [r[0], r[1], int(r[2]), r[3]]
+                    changed = f(r2, nu + 1)
+                    if changed != r2 or ' where ' not in qtext:
+                        nu += 1
+                        changed = f(r2, nu)
+                    exp2.append(changed)
+                exp_txt = [['' if v is None else str(v) for v in e] for e in exp2]
+            if err is not None or got != exp_txt:
+                res.violation('py:typed-update-assigned-value-lost:sqlite', '[py/sqlite] %s over %r -> %s ; expected %r' % (qtext, rows, err or got, exp_txt), dict(cs, front_end='sqlite'))
+            if n % 61 == 0:
+                res.sample({'leg': 'typed-update', 'query': qtext, 'rows': [[repr(v) for v in r] for r in rows], 'expected': [[repr(v) for v in r] for r in exp]})
+    finally:
+        shutil.rmtree(d, ignore_errors=True)
+
+
 def plan(tier, seed):
     k = NSHARDS[tier]
-    return [{'k': k, 'i': i, 'n': CASES[tier] // k} for i in range(k)]
+    return [{'k': k, 'i': i, 'n': CASES[tier] // k} for i in range(k)] + [{'kind': 'typed-update', 'i': i, 'n': 150 if tier == 'quick' else 2000} for i in range(2 if tier == 'quick' else 6)]
 
 
 def run_shard(spec, res):
     ns = env.import_rbql()
+    if spec.get('kind') == 'typed-update':
+        return leg_typed_update(ns, res, spec)
     rng = random.Random(spec['seed'] * 49979687 + spec['i'])
     js = common.JsLeg(res, PROPERTY, classify_js)
     try:
@@ -97,8 +200,8 @@ def run_shard(spec, res):
 def summarize(tier, seed, m):
     shapes = sorted(k[6:] for k in m['counters'] if k.startswith('shape:'))
     return {
-        'rule': 'UPDATE [SET] lists of 1-3 assignments with targets aN / a[N] / a.name / a["name"], swaps and cycles (a1 = a2, a2 = a3, a3 = a1), right-hand sides from the typed vocabulary incl. NU, NR and b-fields, WHERE true / false / partial, INNER and LEFT JOIN with 0 / 1 / 2 partners, ragged tables with the target beyond a short record; systematic sweep over the 16 combinations of {where, join, cycle, beyond}. distinct_nontrivial = distinct (query, tables) that change at least one cell or must fail.',
-        'required': ['py_cases', 'row_diff_checks', 'rows_with_changes', 'predicted_missing_field_errors', 'js_cases'],
+        'rule': 'UPDATE [SET] lists of 1-3 assignments with targets aN / a[N] / a.name / a["name"], swaps and cycles (a1 = a2, a2 = a3, a3 = a1), right-hand sides from the typed vocabulary incl. NU, NR and b-fields, WHERE true / false / partial, INNER and LEFT JOIN with 0 / 1 / 2 partners, ragged tables with the target beyond a short record; systematic sweep over the 16 combinations of {where, join, cycle, beyond}. a typed leg: ten UPDATE shapes (fractional results into an integer column, swaps between int and float columns, NU * 1.5, a number into a bool column, a string into a numeric column and back, None, products beyond 2**32, WHERE on typed cells) over dataframes with int64 / int8 / float64 / float32 / bool / object columns through query_pandas_dataframe and over a sqlite table through query_sqlite_to_csv - every assigned field must hold the right-hand side value; distinct_nontrivial = distinct (query, tables) that change at least one cell or must fail.',
+        'required': ['typed_update_runs:pandas', 'typed_update_runs:sqlite', 'py_cases', 'row_diff_checks', 'rows_with_changes', 'predicted_missing_field_errors', 'js_cases'],
         'extra': {'shapes_seen': shapes},
         'assumptions': ['rv/model/refsem.py _run_update is the UPDATE semantics of the statement'],
     }
